@@ -65,7 +65,7 @@ func init() {
 		MinEvals:    floor(100000, 2000000),
 		MinDistinct: floor(20000, 300000),
 		RequiredCells: func(string) []string {
-			cells := []string{"family/a-random", "family/b-mutants", "family/c-signed-malformed", "family/d-bad-key-material", "family/e-hostile-lengths", "family/f-policy-x-data", "bomb/cbor-list", "bomb/cbor-map", "bomb/json-list", "bomb/policy-not", "bomb/signed-deep-args", "bomb/signed-deep-pol", "bomb/selector-long", "bomb/policy-nested-any-failing", "bomb/policy-nested-all-passing", "bomb/policy-nested-and-or-not", "bomb/car-zero-sections", "bomb/cbor-container-empty-entries", "bomb/json-whitespace", "bomb/json-wide-list", "bomb/selector-question-marks", "bomb/signed-wide-args", "bomb/signed-wide-pol", "car-length-sweep", "like-families", "selector/quoted-names", "container/framing-kinds", "hostile-varsig-headers", "concurrent-hostile-decoding", "rss-measured", "past-first-layer"}
+			cells := []string{"family/a-random", "family/b-mutants", "family/c-signed-malformed", "family/d-bad-key-material", "family/e-hostile-lengths", "family/f-policy-x-data", "bomb/cbor-list", "bomb/cbor-map", "bomb/json-list", "bomb/policy-not", "bomb/signed-deep-args", "bomb/signed-deep-pol", "bomb/selector-long", "bomb/policy-nested-any-failing", "bomb/policy-nested-all-passing", "bomb/policy-nested-and-or-not", "bomb/car-zero-sections", "bomb/cbor-container-empty-entries", "bomb/json-whitespace", "bomb/json-wide-list", "bomb/selector-question-marks", "bomb/signed-wide-args", "bomb/signed-wide-pol", "car-length-sweep", "like-families", "selector/quoted-names", "policy/hostile-text", "container/framing-kinds", "hostile-varsig-headers", "concurrent-hostile-decoding", "rss-measured", "past-first-layer"}
 			for _, e := range []string{"token.FromSealed", "token.FromDagJson", "delegation.FromSealed", "invocation.FromSealed", "container.FromCbor", "container.FromCar", "container.FromCborBase64", "container.FromCarBase64", "policy.FromDagJson", "policy.FromIPLD", "Policy.Match", "selector.Parse", "Selector.Select", "did.Parse", "DID.PubKey", "args.Add", "literal.Any"} {
 				cells = append(cells, "entry/"+e)
 			}
@@ -634,6 +634,39 @@ func c09Bulk(w *mon.W, part, parts int) {
 			w.Distinct("framing-kinds", hb)
 		}
 		w.Cover("container/framing-kinds")
+	}
+
+	// policies whose TEXT positions (operator, selector, pattern) hold strings that are not UTF-8:
+	// runs of continuation bytes of every length up to 24, cut multi-byte sequences, over-long
+	// forms - every one of them ends up in an error message or a parser
+	{
+		var hostile []string
+		for n := 1; n <= 24; n++ {
+			hostile = append(hostile, strings.Repeat("\x80", n), strings.Repeat("\xbf", n), "=="+strings.Repeat("\x80", n), strings.Repeat("\xc3", n), strings.Repeat("é", n)[:2*n-1])
+		}
+		hostile = append(hostile, "\xf0\x9f\x98", "\xed\xa0\x80\xed\xb0\x80", "\xc0\xaf", strings.Repeat("\xf4\x90\x80\x80", 4), strings.Repeat("a", 9)+"\xe6\x97", strings.Repeat("a", 10)+"\xa5")
+		for hi, h := range hostile {
+			if hi%parts != part {
+				continue
+			}
+			for _, pv := range []ref.V{
+				ref.List(ref.List(ref.Str(h), ref.Str(".a"), ref.Int(1))),
+				ref.List(ref.List(ref.Str("=="), ref.Str(h), ref.Int(1))),
+				ref.List(ref.List(ref.Str("=="), ref.Str(".a"+h), ref.Int(1))),
+				ref.List(ref.List(ref.Str("like"), ref.Str(".a"), ref.Str(h))),
+				ref.List(ref.List(ref.Str("not"), ref.List(ref.Str(h), ref.Str(".a"), ref.Int(1)))),
+				ref.List(ref.List(ref.Str("any"), ref.Str(".a"), ref.List(ref.Str(h), ref.Str("."), ref.Int(1)))),
+				ref.List(ref.List(ref.Str("and"), ref.List(ref.List(ref.Str(h))))),
+			} {
+				raw, _ := ref.EncodeDagCbor(pv)
+				c.policyNodeEntries("hostile-text", pv, data[:2], raw)
+			}
+			c.selectorEntries("hostile-text", ".a"+h, data[:2])
+			c.selectorEntries("hostile-text", `.["`+h+`"]`, data[:2])
+			c.didEntries("hostile-text", "did:key:z"+h)
+			w.Distinct("hostile-text", h)
+		}
+		w.Cover("policy/hostile-text")
 	}
 
 	// quoted field names: every body of up to 4 characters over the characters that matter to a
